@@ -1100,7 +1100,7 @@ func (lc *leaderController) DeleteShard(request *proto.DeleteShardRequest) (*pro
 		lc.log.Warn("Invalid term when deleting shard",
 			slog.Int64("follower-term", lc.term),
 			slog.Int64("new-term", request.Term))
-		_ = lc.close()
+		// A request with a stale term is refused without touching the leader
 		return nil, constant.ErrInvalidTerm
 	}
 
@@ -1114,10 +1114,14 @@ func (lc *leaderController) DeleteShard(request *proto.DeleteShardRequest) (*pro
 	}
 
 	// Wipe out both WAL and DB contents
-	if err := multierr.Combine(
-		deleteWal.Delete(),
-		deleteDb.Delete(),
-	); err != nil {
+	var err error
+	if deleteWal != nil {
+		err = multierr.Append(err, deleteWal.Delete())
+	}
+	if deleteDb != nil {
+		err = multierr.Append(err, deleteDb.Delete())
+	}
+	if err != nil {
 		return nil, err
 	}
 
